@@ -911,10 +911,11 @@ fn gen_loop_case(rng: &mut Rng, i: usize) -> Synth {
             let mut p = vec![];
             push_val(&mut p, 0);
             p.push(0x16); // SZPS 0: twilight
-            let reps = 3 + rng.below(4);
+            let all_delta = rng.chance(1, 3);
+            let reps = if all_delta { 10 } else { 3 + rng.below(4) };
             for _ in 0..reps {
                 push_big(&mut p, 16, 0); // 32767 * 65536
-                if rng.chance(1, 4) {
+                if all_delta || rng.chance(1, 4) {
                     // an exception count far beyond the stack depth (cut down to depth / 2 before the loop)
                     p.push(*rng.pick(&[0x5Du8, 0x71, 0x72, 0x73, 0x74, 0x75]));
                 } else {
@@ -2134,6 +2135,18 @@ fn child_request(line: &str) -> String {
                 None => "bad-request".into(),
             }
         }
+        "cffbat" if t.len() == 7 => match charstring::parse_case(&t[1..6]) {
+            Some(c) => {
+                let seed: u64 = t[6].parse().unwrap_or(0);
+                let mut rep = Report::new();
+                match charstring::build_cff_font(&c) {
+                    Ok(data) => battery_blob(&data, seed, 0, &mut rep),
+                    Err(e) => return format!("build-failed {e}"),
+                }
+                finish_report(rep, "")
+            }
+            None => "bad-request".into(),
+        },
         "cs" | "cse" => match charstring::parse_case(&t[1..]) {
             Some(c) => {
                 let e2e = t[0] == "cse";
@@ -2487,6 +2500,26 @@ fn run(cfg: &Config, s: &mut Session) {
         s.count(&format!("cse:{}:{}", c.family, class.split('(').next().unwrap_or("?")));
         s.case("charstring-e2e", charstring::case_line("cse", &charstring::embedded_view(c)), class);
     }
+    // the whole skrifa battery (every size / hinting configuration / buffer size) on synthetic CFF / CFF2 fonts with
+    // generated charstrings: exploration, oracles only
+    let n_cffbat = if thorough { 3000 } else { 300 };
+    let cffbat_jobs: Vec<String> = (0..n_cffbat)
+        .map(|i| {
+            let c = charstring::gen_case(&mut rng, i, true);
+            format!("{} {}", charstring::case_line("cffbat", &c), rng.next() % 1_000_000)
+        })
+        .collect();
+    let res = run_jobs(&cffbat_jobs, cap, nworkers);
+    let mut total_ops = 0u64;
+    for (j, r) in cffbat_jobs.iter().zip(res.iter()) {
+        if r.starts_with("ok ") {
+            total_ops += r.trim_start_matches("ok ops=").parse::<u64>().unwrap_or(0);
+        }
+        s.count(&format!("cffbat:{}", r.split_whitespace().next().unwrap_or("?")));
+        record(s, "skrifa-total-on-synthetic-cff-font", j, r);
+    }
+    s.notes.push(format!("synthetic CFF batteries: {total_ops} guarded API operations"));
+
     // fan-out chains: k^10 subroutine activations from ~ 25*k bytes (finding family, see known_findings.d/C02.json)
     let fan_jobs: Vec<(usize, String)> = [2usize, 4, 16]
         .iter()
